@@ -34,6 +34,10 @@
 (*   Reprocess(t)   Network.Reprocess -> handleReprocessEvent: the handler *)
 (*                  is called outside the job bookkeeping, errors are only *)
 (*                  logged                                                 *)
+(*   Begin(t) / Finish(t)  the same handler call split where the code is   *)
+(*                  not atomic: StoreCredential has looked the id up and   *)
+(*                  verified the signature / is about to write (only for   *)
+(*                  the transactions in Split)                             *)
 (*   Trust / Untrust(i)   local administrator, persisted at once           *)
 (*   LearnKey(i)    the DID document of issuer i reaches the did store     *)
 (*   CtxUp          an allowed remote JSON-LD context becomes reachable    *)
@@ -55,6 +59,11 @@
 (*                       retried; the code answers EventFatal: the payload *)
 (*                       is only looked at again by the start-up replay    *)
 (*                       or Reprocess                 [X07-dropped-nokey]  *)
+(*   StoreAtomic         StoreCredential's "is the id taken?" (find) and   *)
+(*                       its write are one critical section; the code      *)
+(*                       looks, verifies, then writes: two handler calls   *)
+(*                       for one id that overlap (retry goroutine, the     *)
+(*                       REPROCESS subscriber) both write [X07-store-race] *)
 (*   ContextErrorsSeen   handleError recognises a JSON-LD context error    *)
 (*                       below the signature check of a CREDENTIAL (not on *)
 (*                       the allow list: acknowledged; remote context not  *)
@@ -76,7 +85,8 @@ CONSTANTS
     InitKeys,      \* issuers whose DID document is known at the start
     LateKeys,      \* issuers whose DID document may arrive later
     MaxRestart, MaxReproc, MaxFault, MaxTrustOps,
-    ValidateOnStore, TransientRetried, UnknownKeyRetried, ContextErrorsSeen,
+    ValidateOnStore, TransientRetried, UnknownKeyRetried, ContextErrorsSeen, StoreAtomic,
+    Split,         \* credentials whose handler call may be split into Begin / Finish
     \* ---- mode "pub"
     Parties,       \* DID names on the issuing node
     Comm,          \* party -> [k |-> "own" | "ref" | "none" | "ghost", to |-> party]   (NutsComm service of its document; ghost = no document)
@@ -96,6 +106,7 @@ VARIABLES
     jobs,      \* tx -> "none" | "done" | "retry" | "dead"      (job shelves of the two notifiers)
     why,       \* tx -> outcome class of the last handler call
     replay,    \* jobs the start-up replay still has to deliver
+    pend,      \* handler calls between "id not taken, signature fine" and the write
     restarts, reprocs, faults, tops,
     \* ---- mode "pub"
     pcfg,      \* [keys |-> KeyCfg, icomm |-> IssuerComm]
@@ -103,9 +114,9 @@ VARIABLES
     last,      \* outcome of the last step
     hist
 
-recvVars == <<stored, blind, revs, trust, keys, ctxUp, jobs, why, replay, restarts, reprocs, faults, tops>>
-vars == <<stored, blind, revs, trust, keys, ctxUp, jobs, why, replay, restarts, reprocs, faults, tops, pcfg, pubs, last, hist>>
-view == <<stored, blind, revs, trust, keys, ctxUp, jobs, why, replay, restarts, reprocs, faults, tops, pcfg, pubs>>
+recvVars == <<stored, blind, revs, trust, keys, ctxUp, jobs, why, replay, pend, restarts, reprocs, faults, tops>>
+vars == <<stored, blind, revs, trust, keys, ctxUp, jobs, why, replay, pend, restarts, reprocs, faults, tops, pcfg, pubs, last, hist>>
+view == <<stored, blind, revs, trust, keys, ctxUp, jobs, why, replay, pend, restarts, reprocs, faults, tops, pcfg, pubs>>
 
 Log(e) == hist' = IF Hist THEN Append(hist, e) ELSE hist
 Tx == CredTx \cup RevTx
@@ -186,27 +197,27 @@ Running == Mode = "recv" /\ replay = {}
 Deliver(t, f) ==
     /\ Running /\ jobs[t] = "none" /\ f \in FaultChoice(t)
     /\ Handle(t, f, "Deliver")
-    /\ UNCHANGED <<trust, keys, ctxUp, replay, restarts, reprocs, tops, pcfg, pubs>>
+    /\ UNCHANGED <<pend, trust, keys, ctxUp, replay, restarts, reprocs, tops, pcfg, pubs>>
 
 \* (the retry goroutine of one notifier may run while the start-up replay of the other one is still busy)
 Retry(t, f) ==
     /\ Mode = "recv" /\ t \notin replay /\ jobs[t] = "retry" /\ f \in FaultChoice(t)
     /\ Handle(t, f, "Retry")
-    /\ UNCHANGED <<trust, keys, ctxUp, replay, restarts, reprocs, tops, pcfg, pubs>>
+    /\ UNCHANGED <<pend, trust, keys, ctxUp, replay, restarts, reprocs, tops, pcfg, pubs>>
 
 Restart ==
-    /\ Running /\ restarts < MaxRestart
+    /\ Running /\ pend = {} /\ restarts < MaxRestart
     /\ restarts' = restarts + 1
     /\ replay' = {t \in Tx : jobs[t] \in {"retry", "dead"} /\ why[t] # "ctxdenied"}
     /\ last' = [a |-> "Restart", t |-> "", res |-> ""]
     /\ Log([a |-> "Restart"])
-    /\ UNCHANGED <<stored, blind, revs, trust, keys, ctxUp, jobs, why, reprocs, faults, tops, pcfg, pubs>>
+    /\ UNCHANGED <<pend, stored, blind, revs, trust, keys, ctxUp, jobs, why, reprocs, faults, tops, pcfg, pubs>>
 
 Replay(t, f) ==
     /\ Mode = "recv" /\ t \in replay /\ f \in FaultChoice(t)
     /\ Handle(t, f, "Replay")
     /\ replay' = replay \ {t}
-    /\ UNCHANGED <<trust, keys, ctxUp, restarts, reprocs, tops, pcfg, pubs>>
+    /\ UNCHANGED <<pend, trust, keys, ctxUp, restarts, reprocs, tops, pcfg, pubs>>
 
 Reprocess(t) ==
     /\ Running /\ Delivered(t) /\ reprocs < MaxReproc
@@ -215,7 +226,27 @@ Reprocess(t) ==
        /\ last' = [a |-> "Reprocess", t |-> t, res |-> o]
        /\ Log([a |-> "Reprocess", t |-> t, res |-> o])
     /\ reprocs' = reprocs + 1
-    /\ UNCHANGED <<trust, keys, ctxUp, jobs, why, replay, restarts, faults, tops, pcfg, pubs>>
+    /\ UNCHANGED <<pend, trust, keys, ctxUp, jobs, why, replay, restarts, faults, tops, pcfg, pubs>>
+
+\* StoreCredential up to (not including) the write: the id is free, the credential verifies
+Begin(t) ==
+    /\ Running /\ t \in Split /\ jobs[t] = "none" /\ CredOutcome(t, FALSE) = "stored"
+    /\ pend' = pend \cup {t}
+    /\ jobs' = [jobs EXCEPT ![t] = "busy"]
+    /\ last' = [a |-> "Begin", t |-> t, res |-> ""]
+    /\ Log([a |-> "Begin", t |-> t])
+    /\ UNCHANGED <<stored, blind, revs, trust, keys, ctxUp, why, replay, restarts, reprocs, faults, tops, pcfg, pubs>>
+\* ... the write. Atomic: the look-up is (as good as) repeated under the same lock; the code: it writes what it decided to write
+Finish(t) ==
+    /\ Mode = "recv" /\ t \in pend
+    /\ LET o == IF StoreAtomic THEN CredOutcome(t, FALSE) ELSE "stored" IN
+       /\ Apply(t, o)
+       /\ jobs' = [jobs EXCEPT ![t] = JobAfter(o)]
+       /\ why' = [why EXCEPT ![t] = o]
+       /\ last' = [a |-> "Finish", t |-> t, res |-> o]
+       /\ Log([a |-> "Finish", t |-> t, res |-> o, job |-> JobAfter(o)])
+    /\ pend' = pend \ {t}
+    /\ UNCHANGED <<trust, keys, ctxUp, replay, restarts, reprocs, faults, tops, pcfg, pubs>>
 
 SetTrust(i, on) ==
     /\ Running /\ tops < MaxTrustOps /\ (on <=> i \notin trust)
@@ -223,21 +254,21 @@ SetTrust(i, on) ==
     /\ tops' = tops + 1
     /\ last' = [a |-> IF on THEN "Trust" ELSE "Untrust", t |-> i, res |-> ""]
     /\ Log([a |-> IF on THEN "Trust" ELSE "Untrust", i |-> i])
-    /\ UNCHANGED <<stored, blind, revs, keys, ctxUp, jobs, why, replay, restarts, reprocs, faults, pcfg, pubs>>
+    /\ UNCHANGED <<pend, stored, blind, revs, keys, ctxUp, jobs, why, replay, restarts, reprocs, faults, pcfg, pubs>>
 
 LearnKey(i) ==
     /\ Running /\ i \in LateKeys \ keys
     /\ keys' = keys \cup {i}
     /\ last' = [a |-> "LearnKey", t |-> i, res |-> ""]
     /\ Log([a |-> "LearnKey", i |-> i])
-    /\ UNCHANGED <<stored, blind, revs, trust, ctxUp, jobs, why, replay, restarts, reprocs, faults, tops, pcfg, pubs>>
+    /\ UNCHANGED <<pend, stored, blind, revs, trust, ctxUp, jobs, why, replay, restarts, reprocs, faults, tops, pcfg, pubs>>
 
 CtxUp ==
     /\ Running /\ ~ctxUp /\ \E c \in CredTx : C[c].ctx = "flaky"
     /\ ctxUp' = TRUE
     /\ last' = [a |-> "CtxUp", t |-> "", res |-> ""]
     /\ Log([a |-> "CtxUp"])
-    /\ UNCHANGED <<stored, blind, revs, trust, keys, jobs, why, replay, restarts, reprocs, faults, tops, pcfg, pubs>>
+    /\ UNCHANGED <<pend, stored, blind, revs, trust, keys, jobs, why, replay, restarts, reprocs, faults, tops, pcfg, pubs>>
 
 (***************************************************************************)
 (* What a caller of the receiving node observes (vcr.go, search.go,        *)
@@ -293,7 +324,7 @@ PubIssue(s, public) ==
        IN /\ pubs' = Append(pubs, e)                     \* failed attempts are recorded, too (ok = FALSE)
           /\ last' = [a |-> "Issue", t |-> s, res |-> IF ok THEN "published" ELSE "error"]
           /\ Log([a |-> "Issue", s |-> s, public |-> public, exp |-> e])
-    /\ UNCHANGED <<stored, blind, revs, trust, keys, ctxUp, jobs, why, replay, restarts, reprocs, faults, tops, pcfg>>
+    /\ UNCHANGED <<pend, stored, blind, revs, trust, keys, ctxUp, jobs, why, replay, restarts, reprocs, faults, tops, pcfg>>
 
 PubRevoke ==
     /\ Mode = "pub" /\ Len(pubs) = 1 /\ pubs[1].kind = "vc" /\ pubs[1].ok
@@ -301,12 +332,12 @@ PubRevoke ==
        IN /\ pubs' = Append(pubs, e)
           /\ last' = [a |-> "Revoke", t |-> "", res |-> "published"]
           /\ Log([a |-> "Revoke", exp |-> e])
-    /\ UNCHANGED <<stored, blind, revs, trust, keys, ctxUp, jobs, why, replay, restarts, reprocs, faults, tops, pcfg>>
+    /\ UNCHANGED <<pend, stored, blind, revs, trust, keys, ctxUp, jobs, why, replay, restarts, reprocs, faults, tops, pcfg>>
 
 (***************************************************************************)
 Init ==
     /\ stored = {} /\ blind = {} /\ revs = {} /\ trust = InitTrust /\ keys = InitKeys /\ ctxUp = FALSE
-    /\ jobs = [t \in Tx |-> "none"] /\ why = [t \in Tx |-> ""] /\ replay = {}
+    /\ jobs = [t \in Tx |-> "none"] /\ why = [t \in Tx |-> ""] /\ replay = {} /\ pend = {}
     /\ restarts = 0 /\ reprocs = 0 /\ faults = 0 /\ tops = 0
     /\ pcfg \in (IF Mode = "pub" THEN [keys : KeyCfgs, icomm : IssuerComms] ELSE {[keys |-> "", icomm |-> ""]})
     /\ pubs = <<>>
@@ -316,6 +347,7 @@ Init ==
 Next ==
     \/ \E t \in Tx : \E f \in BOOLEAN : Deliver(t, f) \/ Retry(t, f) \/ Replay(t, f)
     \/ \E t \in Tx : Reprocess(t)
+    \/ \E t \in Split : Begin(t) \/ Finish(t)
     \/ Restart \/ CtxUp
     \/ \E i \in Issuers : SetTrust(i, TRUE) \/ SetTrust(i, FALSE) \/ LearnKey(i)
     \/ \E s \in Subjects, public \in BOOLEAN : PubIssue(s, public)
@@ -326,13 +358,15 @@ Spec == Init /\ [][Next]_vars
 FairSpec == /\ Spec
             /\ \A t \in Tx : WF_vars(\E f \in BOOLEAN : Deliver(t, f)) /\ WF_vars(Retry(t, FALSE)) /\ WF_vars(\E f \in BOOLEAN : Replay(t, f))
             /\ WF_vars(CtxUp) /\ \A i \in Issuers : WF_vars(LearnKey(i))
+            /\ \A t \in Split : WF_vars(Finish(t))
 
 (***************************************************************************)
 (* Properties (mode "recv")                                                *)
 (***************************************************************************)
 TypeOK ==
     /\ stored \subseteq CredTx /\ blind \subseteq CredTx /\ revs \subseteq RevTx /\ trust \subseteq Issuers /\ keys \subseteq Issuers
-    /\ jobs \in [Tx -> {"none", "done", "retry", "dead"}] /\ replay \subseteq Tx
+    /\ jobs \in [Tx -> {"none", "busy", "done", "retry", "dead"}] /\ replay \subseteq Tx /\ pend \subseteq Split
+    /\ \A t \in Tx : jobs[t] = "busy" <=> t \in pend
 
 \* only credentials that verify as of their issuance are stored
 StoredAreValid == \A c \in stored : Valid(c)
@@ -352,7 +386,7 @@ UntrustedHidden ==
 UntrustedListed == \A c \in stored : C[c].iss \notin trust => C[c].iss \in UntrustedAns
 
 \* no handler is running or waiting for an in-process retry
-Quiescent == replay = {} /\ \A t \in Tx : jobs[t] # "retry"
+Quiescent == replay = {} /\ pend = {} /\ \A t \in Tx : jobs[t] # "retry"
 Resolvable(c) == C[c].iss \in keys /\ (C[c].ctx = "flaky" => ctxUp)
 Contested(c) == \E d \in CredTx \ {c} : Delivered(d) /\ C[d].id = C[c].id /\ Valid(d)
 \* the stored set is a function of the SET of delivered transactions (not of order, duplicates, faults, restarts):
@@ -394,6 +428,6 @@ PubShape == \A i \in {n \in 1..Len(pubs) : pubs[n].ok} :
     /\ pubs[i].keys # {}
 
 Terminal == IF Mode = "pub" THEN Len(pubs) = 2 \/ (Len(pubs) = 1 /\ ~pubs[1].ok)
-            ELSE /\ replay = {} /\ \A t \in Tx : jobs[t] \in {"done", "dead"}
+            ELSE /\ replay = {} /\ pend = {} /\ \A t \in Tx : jobs[t] \in {"done", "dead"}
                  /\ restarts = MaxRestart
 =============================================================================
